@@ -36,6 +36,8 @@ func genC16(r *simrt.RNG, tier string, variant int) Plan {
 			op := Op{Kind: "rev", Client: ci, Tok: tok, N: r.Intn(3), Hold: r.Bool(0.5)}
 			if r.Bool(0.2) {
 				op.Kind = "call"
+			} else if r.Bool(0.15) {
+				op.Kind, op.N = "notifyrev", 0 // a notification whose handler calls back
 			}
 			p.Ops = append(p.Ops, op)
 			tok++
@@ -130,6 +132,19 @@ func runC16(e *Env, p *Plan) {
 		faultyConn["A"] = true
 	}
 	for _, op := range p.Ops {
+		if op.Kind == "notifyrev" && op.Client < len(p.Clients) {
+			cp := p.Clients[op.Client]
+			t := e.Tok(op.Tok)
+			t.mu.Lock()
+			started, ended, val := len(t.HCtx), len(t.HEnd), t.Val
+			t.mu.Unlock()
+			if started > ended {
+				e.Violate("C16.reverse-call-fails-not-blocks", "the notification handler of tok=%d (client %s) is still blocked in its reverse call", t.ID, cp.Name)
+			} else if started > 0 && cp.Kind == "ws" && p.Servers[0].Reverse && !faultyConn[cp.Name] && val != cp.Name+"/"+itoa(op.Tok) {
+				e.Violate("C16.reverse-identity", "reverse call from the notification handler of tok=%d on healthy client %s returned %q", t.ID, cp.Name, val)
+			}
+			continue
+		}
 		if op.Kind != "rev" || op.Client >= len(p.Clients) {
 			continue
 		}
